@@ -5,6 +5,7 @@ package props
 import (
 	"bytes"
 	"fmt"
+	"net"
 	"testing"
 	"time"
 
@@ -218,6 +219,9 @@ func c16CheckSession(c C16Session) *pbt.Violation {
 		defer conn.Close()
 		if rc, ok := conn.(*mcnet.RCONConn); ok {
 			rc.SetDeadline(time.Now().Add(20 * time.Second))
+			if tc, ok := rc.Conn.(*net.TCPConn); ok {
+				tc.SetLinger(0) // no TIME_WAIT: thousands of sessions per second must not exhaust the ports
+			}
 		}
 		if lg.loginErr = conn.AcceptLogin(c.ServerPw); lg.loginErr != nil {
 			return
@@ -247,6 +251,15 @@ func c16CheckSession(c C16Session) *pbt.Violation {
 	client, derr := mcnet.DialRCON(l.Addr().String(), c.ClientPw)
 	equal := c.ServerPw == c.ClientPw
 	finish := func() c16ServerLog {
+		// let the server side hang up first when it is about to (its reset leaves no TIME_WAIT behind)
+		select {
+		case lg := <-done:
+			if client != nil {
+				client.Close()
+			}
+			return lg
+		case <-time.After(20 * time.Millisecond):
+		}
 		if client != nil {
 			client.Close()
 		}
